@@ -1530,10 +1530,17 @@ class StateEngine(object):
                             )
 
                             """
-                            Tidy up self.branch_metadata for current execution_arn
-                            before republishing the Task state event.
+                            If a Map or Parallel state is being retried tidy up
+                            self.branch_metadata for current execution_arn
+                            (cancel and acknowledge the sibling Branches/Iterations)
+                            before republishing the state event. A retried Task
+                            inside a Branch must leave the results its sibling
+                            Branches have already returned alone.
                             """
-                            if execution_arn in self.branch_metadata:
+                            if (
+                                (state_type == "Map" or state_type == "Parallel")
+                                and execution_arn in self.branch_metadata
+                            ):
                                 self.check_pending_results(execution_arn)
 
                             """
